@@ -142,6 +142,14 @@ func (e *Engine) readTok(st *State, s *Term) tokVal {
 	}
 	r := rposOf(st, s)
 	t := e.tokLoad(st, s, r)
+	if t.kind.Op == OConst && t.kind.Val == tkBlk && !(t.n.Op == OConst) {
+		// A decoder reads structured data out of a block of bytes whose content the model does not know (a buffer made
+		// from a byte slice parameter): the bytes of the block re-tokenise in an arbitrary way. From here on the stream is
+		// an unknown token sequence (reader-defined tokenisation, as for any network reader).
+		e.retokenize(st, s, r)
+		st.note("raw byte buffer read as CBOR: content treated as an arbitrary token stream")
+		t = e.tokLoad(st, s, r)
+	}
 	st.storeLeaf("tokpos|r", []*Term{s}, Add(r, BVConst(1, 64)))
 	rb := st.loadLeaf("tokpos|rb", []*Term{s}, Ref64)
 	st.storeLeaf("tokpos|rb", []*Term{s}, Add(rb, tokByteLen(t)))
@@ -1077,4 +1085,20 @@ func (e *Engine) byteCopy(st *State, s, pos *Term, buf Val, n *Term) {
 	st.assume(Forall([]*Term{j}, Eq(Select(nw, j), Ite(in, Select(src, Concat(s, Add(pos, Sub(ji, buf.sOff())))), Select(old, j)))))
 	st.mem[key] = nw
 	st.written[key] = true
+}
+
+// retokenize forgets the tokens of stream s at and above position from.
+func (e *Engine) retokenize(st *State, s *Term, from *Term) {
+	for _, c := range []struct {
+		key string
+		s   *Sort
+	}{{"tok|kind", BV(8)}, {"tok|m", BV(8)}, {"tok|n", Ref64}, {"tok|cid", Ref64}, {"tok|aux", Ref64}} {
+		old := st.cellArr(c.key, 2, c.s)
+		nw := FreshVar("Hq|"+c.key, old.S)
+		j := Bound("j", BV(128))
+		jr, ji := Extract(127, 64, j), Extract(63, 0, j)
+		inR := And(Eq(jr, s), Ule(from, ji))
+		st.assume(Forall([]*Term{j}, Or(inR, Eq(Select(nw, j), Select(old, j)))))
+		st.mem[c.key] = nw
+	}
 }
